@@ -9,8 +9,8 @@ from oracles import se3
 MOD = "checks.c04"
 PI = np.pi
 TOL = 5e-6
-ANG = [0.0, 1e-7, 0.5, 1.0, PI / 2, 2.5, PI - 1e-3]
-FORMS = ["list6", "arr6", "col6", "list3", "arr3", "rpy3", "rpy6", "rpy6arr", "list7", "arr7", "mat4", "pair", "tm", "arr_of_tm"]
+ANG = [0.0, 1e-7, 1e-5, 1e-3, 0.5, 1.0, PI / 2, 2.5, PI - 1e-3]
+FORMS = ["list6", "arr6", "col6", "list3", "arr3", "rpy3", "rpy3arr", "rpy6", "rpy6arr", "rpy6col", "pair_rpy", "list7", "arr7", "mat4", "pair", "tm", "arr_of_tm"]
 
 
 def poses(seed):
@@ -50,21 +50,25 @@ def build(form, p, w, tm):
     if form in ("list3", "arr3"):
         T0 = se3.T_from(w, [0, 0, 0])
         return (tm(list(w)) if form == "list3" else tm(np.array(w))), T0
-    if form in ("rpy3", "rpy6", "rpy6arr"):
+    if form in ("rpy3", "rpy3arr", "rpy6", "rpy6arr", "rpy6col", "pair_rpy"):
         import warnings
         with warnings.catch_warnings():
             warnings.simplefilter("ignore")
             a, b, c = Rsc.from_matrix(R).as_euler("XYZ")
         Rw = se3.rot_xyz(a, b, c)                       # what 'roll-pitch-yaw flag' means: Rx*Ry*Rz
-        if form == "rpy3":
+        if form in ("rpy3", "rpy3arr"):
             E = np.eye(4)
             E[:3, :3] = Rw
-            return tm([a, b, c], True), E
+            return (tm([a, b, c], True) if form == "rpy3" else tm(np.array([a, b, c]), True)), E
         E = np.eye(4)
         E[:3, :3] = Rw
         E[:3, 3] = p
         if form == "rpy6":
             return tm(list(p) + [a, b, c], True), E
+        if form == "rpy6col":
+            return tm(np.array(list(p) + [a, b, c]).reshape(6, 1), True), E
+        if form == "pair_rpy":
+            return tm([list(p), [a, b, c]], True), E
         return tm(np.array(list(p) + [a, b, c]), True), E
     if form in ("list7", "arr7"):
         qv = Rsc.from_rotvec(w).as_quat()               # x, y, z, w
@@ -116,7 +120,7 @@ def work_forms(p):
                 acc.violation("quat_roundtrip", case, e3, TOL, q)
         except Exception as ex:
             acc.violation("raised", case, repr(ex))
-        acc.case(("f", form, tuple(pos), tuple(np.round(w, 13))), nontrivial=(th > 1e-6 or form in ("list3", "arr3", "rpy3")))
+        acc.case(("f", form, tuple(pos), tuple(np.round(w, 13))), nontrivial=(th > 1e-6 or form in ("list3", "arr3", "rpy3", "rpy3arr")))
         if ip == 40:
             acc.sample(case)
     return acc.result()
